@@ -9,20 +9,31 @@ point, crash again while recovering, any number of times). The model is
 namespace Tmv.Props.C05
 open Tmv.Pipeline
 
-/-- system invariant: the disk is one a crash can leave; a vote of the height in progress is only
-signed when the WAL can replay it; block 1 is stored only after the genesis state was saved; a node
-that is up is fully synced, its WAL holds the marker of its height, and it is live -/
+/-- system invariant: the disk is one that crashes and snapshot restores of the application can
+leave; a vote of the height in progress is only signed when the WAL can replay it; the first
+block is stored only after the genesis state was saved; a node that is up is fully synced, its WAL
+holds the marker of its height, and it is live -/
 def SInv (c : Chain) (s : Sys) : Prop :=
-  Inv c s.disk ∧ WInv s.disk ∧ GenOK s.disk ∧
+  Inv c s.disk ∧ WInv c s.disk ∧ GenOK s.disk ∧
     (s.up = true → (∃ n, Good c s.disk n) ∧ s.disk.walEnd = s.disk.stateH ∧ s.live = true ∧
       s.disk.genesisSaved = true)
 
 theorem genesis_inv (c : Chain) : SInv c genesis :=
-  ⟨⟨0, .inl ⟨rfl, rfl, rfl, ⟨rfl, rfl, rfl, rfl⟩⟩⟩, ⟨by simp [genesis], by simp [genesis]⟩,
-    by simp [genesis, GenOK], by simp [genesis]⟩
+  ⟨⟨0, .inl ⟨0, Nat.le_refl 0, .inl ⟨rfl, rfl, rfl, ⟨rfl, rfl, rfl, rfl⟩⟩⟩⟩,
+    ⟨.inl (Nat.le_refl 0), fun _ => rfl⟩, by simp [genesis, GenOK], by simp [genesis]⟩
 
-theorem winv_crash {d : Disk} (h : WInv d) : WInv (crash d) := h
+theorem winv_crash {c : Chain} {d : Disk} (h : WInv c d) : WInv c (crash d) := h
 theorem genOK_crash {d : Disk} (h : GenOK d) : GenOK (crash d) := h
+
+theorem inv_restore {c : Chain} {d : Disk} (h : Inv c d) (j : Nat) :
+    Inv c { d with app := d.app.restore j } := by
+  obtain ⟨k, ⟨a, hak, h | h⟩ | ⟨h, hr⟩⟩ := h
+  · exact ⟨k, .inl ⟨a - j, by omega, .inl ⟨h.stateH, h.stateHash, h.storeH, h.app.restore j⟩⟩⟩
+  · exact ⟨k, .inl ⟨a - j, by omega, .inr ⟨h.stateH, h.stateHash, h.storeH, h.app.restore j⟩⟩⟩
+  · by_cases hj : j = 0
+    · subst hj
+      exact ⟨k, .inr ⟨⟨h.stateH, h.stateHash, h.storeH, h.app.restore 0⟩, hr⟩⟩
+    · exact ⟨k, .inl ⟨k + 1 - j, by omega, .inr ⟨h.stateH, h.stateHash, h.storeH, h.app.restore j⟩⟩⟩
 
 theorem step_inv (c : Chain) (s : Sys) (op : Op) (h : SInv c s) : SInv c (stepSys c s op) := by
   obtain ⟨hinv, hwinv, hgen, hupc⟩ := h
@@ -34,7 +45,7 @@ theorem step_inv (c : Chain) (s : Sys) (op : Op) (h : SInv c s) : SInv c (stepSy
     cases k with
     | none =>
       simp only [stepSys, runProg, hok]
-      exact ⟨⟨m, .inl hgood⟩, hwi, fun _ => hgs, fun _ => ⟨⟨m, hgood⟩, hwal, hlive, hgs⟩⟩
+      exact ⟨⟨m, .inl ⟨m, Nat.le_refl m, .inl hgood⟩⟩, hwi, fun _ => hgs, fun _ => ⟨⟨m, hgood⟩, hwal, hlive, hgs⟩⟩
     | some k =>
       simp only [stepSys, runProg]
       have := hpre.take k
@@ -50,50 +61,68 @@ theorem step_inv (c : Chain) (s : Sys) (op : Op) (h : SInv c s) : SInv c (stepSy
       | none =>
         have hws : (applyEffs s.disk es).walEnd = (applyEffs s.disk es).stateH := by rw [hwal, hgood.stateH]
         have hgs' : (applyEffs s.disk es).genesisSaved = true := applyEffs_gs hgs
-        exact ⟨⟨n + 1, .inl hgood⟩, hwi, fun _ => hgs', fun _ => ⟨⟨n + 1, hgood⟩, hws, rfl, hgs'⟩⟩
+        exact ⟨⟨n + 1, .inl ⟨n + 1, Nat.le_refl _, .inl hgood⟩⟩, hwi, fun _ => hgs',
+          fun _ => ⟨⟨n + 1, hgood⟩, hws, rfl, hgs'⟩⟩
       | some k =>
         have := hpre.take k
         exact ⟨this.1, winv_crash this.2, genOK_crash (hgp.take k), by simp [runProg]⟩
     · simp only [hu, if_false]
       exact ⟨hinv, hwinv, hgen, hupc⟩
+  | rollback j =>
+    simp only [stepSys]
+    exact ⟨inv_restore hinv j, hwinv, hgen, by simp⟩
 
 theorem run_inv (c : Chain) (s : Sys) (ops : List Op) (h : SInv c s) : SInv c (runSys c s ops) := by
   induction ops generalizing s with
   | nil => exact h
   | cons op ops ih => exact ih _ (step_inv c s op h)
 
-/-- every disk reachable from the fresh node by starts, commits and crashes at arbitrary points -/
+/-- every disk reachable from the fresh node by starts, commits, crashes at arbitrary points and
+restores of the application from older snapshots of itself -/
 theorem reachable_inv (c : Chain) (ops : List Op) : SInv c (runSys c genesis ops) :=
   run_inv c genesis ops (genesis_inv c)
 
 /-! ## the journal -/
 
-/-- **journal_wellformed.** After any history of commits, crashes at any effect and recoveries
-(themselves crashing at any effect), the application's call journal is accepted by the grammar
-`jrun`: InitChain only while nothing is committed; then for consecutive heights Begin, the block's
-transactions in block order, End, Commit; an execution may be abandoned only by a process death;
-Begin is only ever issued for `committed + 1` (no committed block executed again, none skipped).
-The automaton ends with exactly as many committed heights as the application reports. -/
+/-- **journal_wellformed.** After any history of commits, crashes at any effect, recoveries
+(themselves crashing at any effect) and restores of the application from older snapshots (any
+number of blocks behind), the application's call journal is accepted by the grammar `jrun`:
+InitChain only while the application reports height 0; then for consecutive heights (the first one
+being the genesis InitialHeight) Begin, the block's transactions in block order, End, Commit; an
+execution may be abandoned only by a process death; Begin is only ever issued for the height after
+the one the application reports (no committed block executed again, none skipped). The automaton
+ends at exactly the height the application reports. -/
 theorem journal_wellformed (c : Chain) (ops : List Op) :
     let s := runSys c genesis ops
     journalWF c s.disk.app.journal = true ∧
       jrun c ⟨0, none⟩ s.disk.app.journal = some ⟨s.disk.app.height, none⟩ := by
-  obtain ⟨n, h | h | ⟨h, _⟩⟩ := (reachable_inv c ops).1 <;>
+  obtain ⟨k, ⟨a, _, h | h⟩ | ⟨h, _⟩⟩ := (reachable_inv c ops).1 <;>
     exact ⟨by simp [journalWF, h.app.run], by rw [h.app.run, h.app.height]⟩
 
-/-- grammar states reachable from the start: the open execution is for `committed + 1` -/
-def JI (c : Chain) (s : JState) : Prop :=
-  ∀ p, s.opn = some p → p.h = s.committed + 1 ∧ (p.ended = true → p.txs = c p.h)
+/-- what the application reports, read off a journal without the grammar: the header height of
+the last committed execution, or the snapshot it was last restored from; second component: the
+header height of the last Begin -/
+def repStep (r : Nat × Nat) : Call → Nat × Nat
+  | .begin h => (r.1, h)
+  | .commit => (r.2, r.2)
+  | .restored h => (h, r.2)
+  | _ => r
 
-theorem jstep_count {c : Chain} {s s' : JState} {k : Call} (hj : JI c s) (h : jstep c s k = some s') :
-    JI c s' ∧ s'.committed = s.committed + (if k = .commit then 1 else 0) := by
+def reportedAfter (l : List Call) : Nat := (l.foldl repStep (0, 0)).1
+
+/-- grammar states against the journal read-off -/
+def JI (c : Chain) (s : JState) (r : Nat × Nat) : Prop :=
+  s.committed = r.1 ∧ ∀ p, s.opn = some p → p.h = r.2 ∧ (p.ended = true → p.txs = c p.h)
+
+theorem jstep_rep {c : Chain} {s s' : JState} {r : Nat × Nat} {k : Call} (hj : JI c s r)
+    (h : jstep c s k = some s') : JI c s' (repStep r k) := by
   cases k with
   | initChain =>
-    simp only [jstep] at h; split at h <;> cases h; exact ⟨hj, by simp⟩
+    simp only [jstep] at h; split at h <;> cases h; exact hj
   | begin hh =>
     simp only [jstep] at h; split at h
-    · rename_i hc; cases h
-      exact ⟨by intro p hp; simp at hp; subst hp; exact ⟨hc.1, by simp⟩, by simp⟩
+    · cases h
+      exact ⟨hj.1, by intro p hp; simp at hp; subst hp; exact ⟨rfl, by simp⟩⟩
     · cases h
   | deliver tx =>
     simp only [jstep] at h
@@ -102,7 +131,7 @@ theorem jstep_count {c : Chain} {s s' : JState} {k : Call} (hj : JI c s) (h : js
       split at h
       · rename_i hg
         cases h
-        exact ⟨by intro q hq; simp at hq; subst hq; exact ⟨(hj p hp).1, by simp [hg.1]⟩, by simp⟩
+        exact ⟨hj.1, by intro q hq; simp at hq; subst hq; exact ⟨(hj.2 p hp).1, by simp [hg.1]⟩⟩
       · cases h
     · cases h
   | endBlock hh =>
@@ -112,7 +141,7 @@ theorem jstep_count {c : Chain} {s s' : JState} {k : Call} (hj : JI c s) (h : js
       split at h
       · rename_i hg
         cases h
-        exact ⟨by intro q hq; simp at hq; subst hq; exact ⟨(hj p hp).1, fun _ => hg.2.2⟩, by simp⟩
+        exact ⟨hj.1, by intro q hq; simp at hq; subst hq; exact ⟨(hj.2 p hp).1, fun _ => hg.2.2⟩⟩
       · cases h
     · cases h
   | commit =>
@@ -121,36 +150,32 @@ theorem jstep_count {c : Chain} {s s' : JState} {k : Call} (hj : JI c s) (h : js
     · rename_i p hp
       split at h
       · cases h
-        exact ⟨by intro q hq; simp at hq, by simp [(hj p hp).1]⟩
+        exact ⟨(hj.2 p hp).1, by intro q hq; simp at hq⟩
       · cases h
     · cases h
   | restart =>
     simp only [jstep] at h; cases h
-    exact ⟨by intro q hq; simp at hq, by simp⟩
+    exact ⟨hj.1, by intro q hq; simp at hq⟩
+  | restored hh =>
+    simp only [jstep] at h; cases h
+    exact ⟨rfl, by intro q hq; simp at hq⟩
 
-theorem jrun_count {c : Chain} {s s' : JState} {l : List Call} (hj : JI c s) (h : jrun c s l = some s') :
-    JI c s' ∧ s'.committed = s.committed + l.count .commit := by
-  induction l generalizing s with
-  | nil => simp [jrun] at h; subst h; exact ⟨hj, by simp⟩
+theorem jrun_rep {c : Chain} {s s' : JState} {r : Nat × Nat} {l : List Call} (hj : JI c s r)
+    (h : jrun c s l = some s') : JI c s' (l.foldl repStep r) := by
+  induction l generalizing s r with
+  | nil => simp [jrun] at h; subst h; exact hj
   | cons k ks ih =>
     simp only [jrun] at h
     cases hk : jstep c s k with
     | none => simp [hk] at h
     | some s1 =>
       rw [hk] at h
-      obtain ⟨h1, h2⟩ := jstep_count hj hk
-      obtain ⟨h3, h4⟩ := ih h1 h
-      refine ⟨h3, ?_⟩
-      rw [h4, h2, List.count_cons]
-      by_cases hc : k = .commit
-      · subst hc; simp; omega
-      · have : (k == Call.commit) = false := by simpa using hc
-        simp [hc, this]
+      exact ih (jstep_rep hj hk) h
 
 theorem jrun_split {c : Chain} {pre post : List Call} {k : Call} {s : JState}
     (h : jrun c ⟨0, none⟩ (pre ++ k :: post) = some s) :
     ∃ s1 s2, jrun c ⟨0, none⟩ pre = some s1 ∧ jstep c s1 k = some s2 ∧
-      s1.committed = pre.count .commit := by
+      JI c s1 (pre.foldl repStep (0, 0)) := by
   rw [jrun_append] at h
   cases h1 : jrun c ⟨0, none⟩ pre with
   | none => simp [h1] at h
@@ -159,76 +184,65 @@ theorem jrun_split {c : Chain} {pre post : List Call} {k : Call} {s : JState}
     cases h2 : jstep c s1 k with
     | none => simp [h2] at h
     | some s2 =>
-      have := (jrun_count (s := ⟨0, none⟩) (by intro p hp; simp at hp) h1).2
-      exact ⟨s1, s2, rfl, h2, by simpa using this⟩
+      exact ⟨s1, s2, rfl, h2, jrun_rep (s := ⟨0, none⟩) ⟨rfl, by intro p hp; simp at hp⟩ h1⟩
 
-/-- **initchain_only_at_zero.** Whenever InitChain appears in the journal, the application had
-committed no block before it (no Commit call precedes it) — for every history of crashes. -/
+/-- **initchain_only_at_zero.** Whenever InitChain appears in the journal, the application was
+reporting height 0 at that point (it had committed nothing, or had been restored to an empty
+snapshot) — for every history. -/
 theorem initchain_only_at_zero (c : Chain) (ops : List Op) (pre post : List Call)
     (h : (runSys c genesis ops).disk.app.journal = pre ++ .initChain :: post) :
-    pre.count .commit = 0 := by
+    reportedAfter pre = 0 := by
   have hw := (journal_wellformed c ops).2
   rw [h] at hw
   obtain ⟨s1, s2, _, h2, h3⟩ := jrun_split hw
   simp only [jstep] at h2
   split at h2
-  · rename_i hc; rw [← h3]; exact hc.1
+  · rename_i hc; unfold reportedAfter; rw [← h3.1]; exact hc.1
   · cases h2
 
 /-- **exactly once, in order.** Every BeginBlock in the journal is for the height right after the
-number of Commits that precede it: a committed block is never executed again and no height is
-skipped — for every history of crashes and recoveries. -/
+one the application was reporting (its last commit or the snapshot it was restored from; the
+genesis InitialHeight when it reported 0): a committed block is never executed again on top of
+itself and no height is skipped — for every history. -/
 theorem begin_is_next_height (c : Chain) (ops : List Op) (pre post : List Call) (h : Nat)
     (hj : (runSys c genesis ops).disk.app.journal = pre ++ .begin h :: post) :
-    h = pre.count .commit + 1 := by
+    h = nxt c (reportedAfter pre) := by
   have hw := (journal_wellformed c ops).2
   rw [hj] at hw
   obtain ⟨s1, s2, _, h2, h3⟩ := jrun_split hw
   simp only [jstep] at h2
   split at h2
-  · rename_i hc; rw [← h3]; exact hc.1
+  · rename_i hc; unfold reportedAfter; rw [← h3.1]; exact hc.1
   · cases h2
 
-/-- every Commit in the journal closes a complete execution of the next block: the calls since
-the matching Begin are exactly Begin h, the block's txs in order, End h (read off the automaton
-state before the Commit). -/
+/-- every Commit in the journal closes a complete execution: the open execution at that point is
+Begin h, all of block h's txs in block order, End h. -/
 theorem commit_closes_full_block (c : Chain) (ops : List Op) (pre post : List Call)
     (hj : (runSys c genesis ops).disk.app.journal = pre ++ .commit :: post) :
-    ∃ s1, jrun c ⟨0, none⟩ pre = some s1 ∧
-      s1.opn = some ⟨pre.count .commit + 1, c (pre.count .commit + 1), true⟩ := by
+    ∃ s1 h, jrun c ⟨0, none⟩ pre = some s1 ∧ s1.opn = some ⟨h, c h, true⟩ := by
   have hw := (journal_wellformed c ops).2
   rw [hj] at hw
-  rw [jrun_append] at hw
-  cases h1 : jrun c ⟨0, none⟩ pre with
-  | none => simp [h1] at hw
-  | some s1 =>
-    have hc := jrun_count (s := ⟨0, none⟩) (by intro p hp; simp at hp) h1
-    simp only [h1, Option.bind_some, jrun] at hw
-    cases h2 : jstep c s1 .commit with
-    | none => simp [h2] at hw
-    | some s2 =>
-      simp only [jstep] at h2
-      split at h2
-      · rename_i p hp
-        split at h2
-        · rename_i he
-          obtain ⟨hh, ht⟩ := hc.1 p hp
-          have hcnt : s1.committed = pre.count .commit := by simpa using hc.2
-          refine ⟨s1, rfl, ?_⟩
-          rw [hp]
-          obtain ⟨ph, ptxs, pe⟩ := p
-          simp only at hh ht he
-          subst he
-          rw [hcnt] at hh
-          subst hh
-          simp [ht rfl]
-        · cases h2
-      · cases h2
+  obtain ⟨s1, s2, h1, h2, h3⟩ := jrun_split hw
+  simp only [jstep] at h2
+  split at h2
+  · rename_i p hp
+    split at h2
+    · rename_i he
+      obtain ⟨_, ht⟩ := h3.2 p hp
+      refine ⟨s1, p.h, h1, ?_⟩
+      rw [hp]
+      obtain ⟨ph, ptxs, pe⟩ := p
+      simp only at ht he
+      subst he
+      simp [ht rfl]
+    · cases h2
+  · cases h2
 
 /-! ## recovery -/
 
-/-- **handshake_total.** On every disk reachable by crashes the case analysis of `ReplayBlocks`
-ends in a non-error, non-panic branch. -/
+/-- **handshake_total.** On every reachable disk — after crashes anywhere and with the
+application restored arbitrarily far behind — the case analysis of `ReplayBlocks` ends in a
+non-error, non-panic branch. -/
 theorem handshake_total (c : Chain) (ops : List Op) :
     (handshake c (runSys c genesis ops).disk).outcome = .ok :=
   (handshake_run (reachable_inv c ops).1 (reachable_inv c ops).2.2.1).1
@@ -251,56 +265,72 @@ theorem recovery_agrees (c : Chain) (ops : List Op) :
 
 /-- **recovery_progress.** A node that is up (after any history) is live and can decide the next
 height: `finalizeCommit` is enabled (the block validates against the saved state), and run to
-completion it leaves the node up, live, synced, one height further. -/
+completion it leaves the node up, live, synced, one block further. -/
 theorem recovery_progress (c : Chain) (ops : List Op) (hup : (runSys c genesis ops).up = true) :
     let s := runSys c genesis ops
     let s' := stepSys c s (.commit none)
-    s.live = true ∧ (finalizeEffs c s.disk (s.disk.stateH + 1)).isSome ∧ s'.up = true ∧ s'.live = true ∧
-      s'.disk.stateH = s.disk.stateH + 1 ∧ s'.disk.app.height = s'.disk.stateH ∧
+    s.live = true ∧ (finalizeEffs c s.disk (nxt c s.disk.stateH)).isSome ∧ s'.up = true ∧ s'.live = true ∧
+      s'.disk.stateH = nxt c s.disk.stateH ∧ s'.disk.app.height = s'.disk.stateH ∧
       s'.disk.storeH = s'.disk.stateH ∧ s'.disk.app.hash = s'.disk.stateHash := by
   have hi := reachable_inv c ops
   obtain ⟨⟨n, hg⟩, hw, hl, hgs⟩ := hi.2.2.2 hup
   obtain ⟨es, hes, _, hgood, _, _⟩ := finalize_run hg (by rw [hw, hg.stateH]) hi.2.1 hgs
   simp only [stepSys, hup, hl, and_self, if_true, hes, runProg]
   refine ⟨trivial, by simp, trivial, trivial, ?_, ?_, ?_, ?_⟩
-  · simp [hgood.stateH, hg.stateH]
+  · simp [hgood.stateH, hg.stateH, nxt_ht]
   · simp [hgood.app.height, hgood.stateH]
   · simp [hgood.storeH, hgood.stateH]
   · simp [hgood.app.hash, hgood.stateHash]
 
-/-- the WAL side of progress: whenever this validator has signed a vote in the height it has not
-yet stored (store + 1), the WAL holds the #ENDHEIGHT marker that makes that vote replayable —
-after any history of crashes (this is what the repaired `catchupReplay` maintains). -/
+/-- the WAL side of progress: whenever this validator has signed a vote in the height after the
+store, the WAL holds the #ENDHEIGHT marker that makes that vote replayable — after any history
+(this is what the repaired `catchupReplay` maintains). -/
 theorem signed_vote_is_replayable (c : Chain) (ops : List Op) :
     let d := (runSys c genesis ops).disk
-    d.pvH = d.storeH + 1 → d.walEnd = d.storeH :=
+    d.pvH = nxt c d.storeH → d.walEnd = d.storeH :=
   (reachable_inv c ops).2.1.2
 
-/-- the three persisted cursors after any history: state ≤ app ≤ store ≤ state + 1 -/
+theorem ht_le (c : Chain) {a b : Nat} (h : a ≤ b) : ht c a ≤ ht c b := by
+  rcases Nat.lt_or_eq_of_le h with e | e
+  · exact Nat.le_of_lt (ht_lt c e)
+  · rw [e]; exact Nat.le_refl _
+
+/-- the three persisted cursors after any history: the store is at the state or exactly one block
+ahead (the genesis InitialHeight counts as the block after 0), the application never ahead of the
+store -/
 theorem cursors_within_one (c : Chain) (ops : List Op) :
     let d := (runSys c genesis ops).disk
-    d.stateH ≤ d.app.height ∧ d.app.height ≤ d.storeH ∧ d.storeH ≤ d.stateH + 1 := by
-  obtain ⟨n, h | h | ⟨h, _⟩⟩ := (reachable_inv c ops).1 <;>
-    (simp only [h.stateH, h.storeH, h.app.height]; omega)
+    (d.storeH = d.stateH ∨ d.storeH = nxt c d.stateH) ∧ d.app.height ≤ d.storeH := by
+  obtain ⟨k, ⟨a, hak, h | h⟩ | ⟨h, _⟩⟩ := (reachable_inv c ops).1
+  · exact ⟨.inl (by rw [h.storeH, h.stateH]), by rw [h.app.height, h.storeH]; exact ht_le c hak⟩
+  · exact ⟨.inr (by rw [h.storeH, h.stateH, nxt_ht]), by
+      rw [h.app.height, h.storeH]; exact ht_le c (by omega)⟩
+  · exact ⟨.inr (by rw [h.storeH, h.stateH, nxt_ht]), by rw [h.app.height, h.storeH]; exact Nat.le_refl _⟩
 
-/-! ## non-vacuity: a concrete history with crashes before the first commit (three InitChains),
-a crash inside block 2's commit after the application committed (mock replay), a crash at the
-very start of a recovery, and a node that is up at the end -/
+/-! ## non-vacuity: a chain with InitialHeight 5; crashes before the first commit (three
+InitChains), a crash on the FIRST block after it was saved, a crash inside the second block's commit
+after the application committed (mock replay), a crash at the very start of a recovery, the
+application restored two blocks back (both replayed by the handshake), a node that is up at the end -/
 
-def exChain : Chain := fun h => if h = 1 then [1, 2] else [3]
+def exChain : Chain := { ihPred := 4, txs := fun h => if h = 5 then [1, 2] else [3] }
 def exOps : List Op :=
-  [.start (some 1), .start none, .commit (some 3), .start none, .commit (some 8), .start (some 0), .start none]
+  [.start (some 1), .start none, .commit (some 3), .start none, .commit (some 9), .start (some 0), .start none,
+   .rollback 2, .start none]
 
 example : (runSys exChain genesis exOps).up = true := by decide
 example : (runSys exChain genesis exOps).disk.app.journal =
     [.initChain, .restart, .initChain, .restart] ++ .initChain ::
-      [.begin 1, .deliver 1, .deliver 2, .endBlock 1, .commit, .begin 2, .deliver 3, .endBlock 2, .commit,
-       .restart, .restart] := by decide
+      [.begin 5, .deliver 1, .deliver 2, .endBlock 5, .commit, .begin 6, .deliver 3, .endBlock 6, .commit,
+       .restart, .restart, .restored 0, .initChain, .begin 5, .deliver 1, .deliver 2, .endBlock 5, .commit,
+       .begin 6, .deliver 3, .endBlock 6, .commit] := by decide
 example : (runSys exChain genesis exOps).disk.app.journal =
-    [.initChain, .restart, .initChain, .restart, .initChain, .begin 1, .deliver 1, .deliver 2, .endBlock 1, .commit]
-      ++ .begin 2 :: [.deliver 3, .endBlock 2, .commit, .restart, .restart] := by decide
+    [.initChain, .restart, .initChain, .restart, .initChain, .begin 5, .deliver 1, .deliver 2, .endBlock 5, .commit,
+     .begin 6, .deliver 3, .endBlock 6, .commit, .restart, .restart, .restored 0, .initChain]
+      ++ .begin 5 :: [.deliver 1, .deliver 2, .endBlock 5, .commit, .begin 6, .deliver 3, .endBlock 6, .commit] := by decide
 example : (handshake exChain (runSys exChain genesis (exOps.take 5)).disk).branch = .lastMock := by decide
 example : (handshake exChain (runSys exChain genesis (exOps.take 3)).disk).branch = .lastReal := by decide
+example : (handshake exChain (runSys exChain genesis (exOps.take 8)).disk).branch = .replayNoMutate := by decide
+example : (runSys exChain genesis (exOps.take 3)).disk.storeH = 5 ∧ (runSys exChain genesis (exOps.take 3)).disk.stateH = 0 := by decide
 
 /-! ## mempool: no new-transaction check in the commit window -/
 section Mempool
